@@ -635,3 +635,176 @@ def run_auth(repo, lean_dir, keep=None):
                 failed.append(("?", p.stdout[-300:]))
     return {"status": "broken" if failed else ("partial" if unavailable else "checked"), "theorems": thms, "failed": failed,
             "failed_names": sorted({n for n, _ in failed}), "unavailable": unavailable, "definitions": {"check_auth_event": text}}
+
+
+# ---- storage/base.py BaseSubscription.check_event (C05): the live matcher ----------------------------------------------------------
+
+def run_live(repo, lean_dir, keep=None):
+    """check_event translated clause by clause (the `matched` set becomes the list of the booleans added to it, in statement order —
+    only its emptiness and `all()` are ever looked at) and proved equal to the model's `liveMatch` for every filter list and event.
+    Atoms: `event.has_tag("delegation", query.authors)[1]` is the model's `delegationHit`, `event.has_tag(name, values)[1] is not None`
+    its `hasTagMatch` (aionostr's Event.has_tag is outside /repo; the harness ties those two atoms by the differential check)."""
+    unavailable, failed, text, thms = [], [], "", []
+    FIELD = {"ids": ("f.ids", "e.id"), "authors": ("f.authors", "e.pubkey"), "kinds": ("f.kinds", "e.kind")}
+
+    def is_attr(n, base, attr=None):
+        return isinstance(n, ast.Attribute) and isinstance(n.value, ast.Name) and n.value.id == base and (attr is None or n.attr == attr)
+
+    def added(call):
+        """the argument of `matched.add(<arg>)`"""
+        if isinstance(call, ast.Expr):
+            call = call.value
+        if isinstance(call, ast.Call) and isinstance(call.func, ast.Attribute) and call.func.attr == "add" \
+                and isinstance(call.func.value, ast.Name) and call.func.value.id == "matched" and len(call.args) == 1:
+            return call.args[0]
+        raise Unavailable("not a matched.add(...)")
+
+    def member(n, var):
+        """`event.X in query.F` -> l.contains e.X"""
+        if isinstance(n, ast.Compare) and len(n.ops) == 1 and isinstance(n.ops[0], (ast.In, ast.NotIn)) and is_attr(n.left, "event") \
+                and is_attr(n.comparators[0], "query"):
+            fld = n.comparators[0].attr
+            if fld in FIELD and n.left.attr == {"ids": "id", "authors": "pubkey", "kinds": "kind"}[fld]:
+                inner = "(%s.contains %s)" % (var, FIELD[fld][1])
+                return fld, ("(!%s)" % inner if isinstance(n.ops[0], ast.NotIn) else inner)
+        raise Unavailable("membership shape")
+
+    def timecmp(n, var):
+        if isinstance(n, ast.Compare) and len(n.ops) == 1 and is_attr(n.left, "event", "created_at") and is_attr(n.comparators[0], "query"):
+            sym = {ast.Gt: ">", ast.Lt: "<", ast.GtE: "≥", ast.LtE: "≤", ast.Eq: "=", ast.NotEq: "≠"}.get(type(n.ops[0]))
+            if sym:
+                return n.comparators[0].attr, "decide (e.createdAt %s %s)" % (sym, var)
+        raise Unavailable("time comparison shape")
+
+    try:
+        tree = ast.parse(open(os.path.join(repo, "nostr_relay", "storage", "base.py")).read())
+        fn = None
+        for n in ast.walk(tree):
+            if isinstance(n, ast.FunctionDef) and n.name == "check_event":
+                fn = n
+        if fn is None:
+            raise Unavailable("check_event is gone")
+        body = [s for s in fn.body if not (isinstance(s, ast.Expr) and isinstance(s.value, ast.Constant))]
+        if not (len(body) == 2 and isinstance(body[0], ast.For) and isinstance(body[1], ast.Return)
+                and isinstance(body[1].value, ast.Constant) and body[1].value.value is False):
+            raise Unavailable("not `for query in filters: … ; return False`")
+        loop = body[0]
+        if not (isinstance(loop.target, ast.Name) and loop.target.id == "query" and isinstance(loop.iter, ast.Name) and loop.iter.id == "filters"):
+            raise Unavailable("outer loop")
+        stmts = list(loop.body)
+        if not (isinstance(stmts[0], ast.Assign) and _is(stmts[0].value, "set()") and stmts[0].targets[0].id == "matched"):
+            raise Unavailable("matched = set()")
+        clauses = []
+        for st in stmts[1:-1]:
+            if not isinstance(st, ast.If) or st.orelse:
+                raise Unavailable("clause is not a plain if")
+            t = st.test
+            # `if query.tags:` -> the loop over the tag conditions
+            if is_attr(t, "query", "tags"):
+                if not (len(st.body) == 1 and isinstance(st.body[0], ast.For)):
+                    raise Unavailable("tags clause")
+                lp = st.body[0]
+                arg = added(lp.body[0]) if len(lp.body) == 1 else None
+                ok = (arg is not None and isinstance(lp.target, ast.Tuple) and [x.id for x in lp.target.elts] == ["tagname", "values"]
+                      and isinstance(arg, ast.Compare) and isinstance(arg.ops[0], (ast.IsNot, ast.Is))
+                      and _is(arg.left, "event.has_tag(tagname, values)[1]") and isinstance(arg.comparators[0], ast.Constant)
+                      and arg.comparators[0].value is None)
+                if not ok:
+                    raise Unavailable("tag condition shape")
+                inner = "hasTagMatch e t.1 t.2"
+                clauses.append("(f.tags.map fun t => %s)" % (inner if isinstance(arg.ops[0], ast.IsNot) else "!(%s)" % inner))
+                continue
+            if not (isinstance(t, ast.Compare) and isinstance(t.ops[0], ast.IsNot) and is_attr(t.left, "query")
+                    and isinstance(t.comparators[0], ast.Constant) and t.comparators[0].value is None):
+                raise Unavailable("clause guard is not `query.X is not None`")
+            fld = t.left.attr
+            if fld in ("since", "until"):
+                if len(st.body) != 1:
+                    raise Unavailable("time clause body")
+                f2, cmp_ = timecmp(added(st.body[0]), "x")
+                if f2 != fld:
+                    raise Unavailable("time clause compares with another field")
+                clauses.append("(match f.%s with | some x => [%s] | none => [])" % ("until_" if fld == "until" else "since", cmp_))
+                continue
+            if fld not in FIELD:
+                raise Unavailable("unknown filter field " + fld)
+            f2, first = member(added(st.body[0]), "l")
+            if f2 != fld:
+                raise Unavailable("clause tests another field")
+            extra = ""
+            rest = st.body[1:]
+            if rest:
+                # has_delegation, match = event.has_tag("delegation", query.authors); if match: matched.add(True)
+                ok = (fld == "authors" and len(rest) == 2 and isinstance(rest[0], ast.Assign) and isinstance(rest[0].targets[0], ast.Tuple)
+                      and _is(rest[0].value, 'event.has_tag("delegation", query.authors)') and isinstance(rest[1], ast.If)
+                      and isinstance(rest[1].test, ast.Name) and rest[1].test.id == rest[0].targets[0].elts[1].id
+                      and len(rest[1].body) == 1 and not rest[1].orelse)
+                if not ok:
+                    raise Unavailable("extra statements in the %s clause" % fld)
+                arg = added(rest[1].body[0])
+                if not (isinstance(arg, ast.Constant) and isinstance(arg.value, bool)):
+                    raise Unavailable("delegation adds a non-constant")
+                extra = " ++ (if delegationHit e l then [%s] else [])" % ("true" if arg.value else "false")
+            clauses.append("(match %s with | some l => [%s]%s | none => [])" % (FIELD[fld][0], first, extra))
+        last = stmts[-1]
+        if not (isinstance(last, ast.If) and len(last.body) == 1 and isinstance(last.body[0], ast.Return)
+                and isinstance(last.body[0].value, ast.Constant) and last.body[0].value.value is True and not last.orelse):
+            raise Unavailable("final `if …: return True`")
+
+        def final(n):
+            if isinstance(n, ast.BoolOp):
+                return "(" + (" && " if isinstance(n.op, ast.And) else " || ").join(final(v) for v in n.values) + ")"
+            if isinstance(n, ast.Name) and n.id == "matched":
+                return "(!(conds f e).isEmpty)"
+            if _is(n, "all(matched)"):
+                return "((conds f e).all id)"
+            if _is(n, "any(matched)"):
+                return "((conds f e).any id)"
+            if isinstance(n, ast.UnaryOp) and isinstance(n.op, ast.Not):
+                return "(!%s)" % final(n.operand)
+            raise Unavailable("final test " + ast.dump(n)[:60])
+        fin = final(last.test)
+        text = "\n".join([
+            "import NostrRelay.Model.Live", "open NostrRelay NostrRelay.KV", "set_option linter.unusedVariables false", "set_option linter.unusedSimpArgs false",
+            "/-! generated from /repo/nostr_relay/storage/base.py (BaseSubscription.check_event) — do not edit -/", "namespace XL",
+            "def conds (f : Filter) (e : Event) : List Bool := " + ("\n  ++ ".join(clauses) if clauses else "[]"),
+            "def matchOne (f : Filter) (e : Event) : Bool := " + fin,
+            "def liveMatch (fs : List Filter) (e : Event) : Bool := fs.any fun f => matchOne f e", "end XL", "",
+            "theorem tie_check_event_one (f : Filter) (e : Event) : XL.matchOne f e = liveMatchOne f e := by",
+            "  unfold XL.matchOne liveMatchOne XL.conds liveConds",
+            "  cases f.ids <;> cases f.authors <;> cases f.kinds <;> cases f.since <;> cases f.until_ <;>",
+            "    simp <;> (try (split <;> simp)) <;> (try (constructor <;> intro h <;> simp_all)) <;> (try ac_rfl)", "",
+            "theorem tie_check_event (fs : List Filter) (e : Event) : XL.liveMatch fs e = NostrRelay.KV.liveMatch fs e := by",
+            "  unfold XL.liveMatch NostrRelay.KV.liveMatch",
+            "  simp only [tie_check_event_one]", ""])
+        thms = ["tie_check_event_one", "tie_check_event"]
+    except Unavailable as ex:
+        unavailable.append(("check_event", str(ex)))
+    except Exception as ex:
+        unavailable.append(("check_event", "%s: %s" % (type(ex).__name__, ex)))
+    if text:
+        if keep:
+            open(keep, "w").write(text)
+        d = tempfile.mkdtemp(prefix="tiel-")
+        path = os.path.join(d, "TieLive.lean")
+        open(path, "w").write(text)
+        try:
+            p = subprocess.run(["lake", "env", "lean", path], cwd=lean_dir, stdout=subprocess.PIPE, stderr=subprocess.STDOUT, text=True,
+                               timeout=600)
+        finally:
+            shutil.rmtree(d, ignore_errors=True)
+        if p.returncode != 0 or ": error" in p.stdout:
+            src = text.split("\n")
+            starts = [(i + 1, l.split()[1]) for i, l in enumerate(src) if l.startswith(("theorem ", "def "))]
+            for l in p.stdout.splitlines():
+                if ": error" in l:
+                    try:
+                        ln = int(l.split(":")[1])
+                    except Exception:
+                        ln = 0
+                    owner = [n for s0, n in starts if s0 <= ln]
+                    failed.append((owner[-1] if owner else "?", l.split("error", 1)[-1].strip(": ")[:200]))
+            if not failed:
+                failed.append(("?", p.stdout[-300:]))
+    return {"status": "broken" if failed else ("partial" if unavailable else "checked"), "theorems": thms, "failed": failed,
+            "failed_names": sorted({n for n, _ in failed}), "unavailable": unavailable, "definitions": {"check_event": text}}
